@@ -1525,7 +1525,8 @@ func ruleFilterOnItsStore(c *Ctx, rule string) {
 				asked, isCall := strip(cc.Value).(*ssa.Call)
 				n++
 				c.Analysed(FnName(fn))
-				c.Check(isCall && asked.Call.IsInvoke() && asked.Call.Method.Name() == "GetStore", rule, FnName(fn)+": "+describeInstr(call), p.Pos(call.Pos()), "the referrer filter handed in is evaluated on the store the constraint's symbol belongs to", "the referrer filter is evaluated on "+describeValue(cc.Value)+" instead of the store the constraint's symbol belongs to: there the field it names does not resolve, nothing matches, and a delete that must be refused (or cascaded) because referrers exist goes through")
+				// (a store handed in along with the filter is the caller's choice, decided there)
+				c.Check(!(isCall && asked.Call.IsInvoke() && asked.Call.Method.Name() == "GetLinkedType"), rule, FnName(fn)+": "+describeInstr(call), p.Pos(call.Pos()), "the referrer filter handed in is evaluated on the store the constraint's symbol belongs to", "the referrer filter is evaluated on "+describeValue(cc.Value)+" instead of the store the constraint's symbol belongs to: there the field it names does not resolve, nothing matches, and a delete that must be refused (or cascaded) because referrers exist goes through")
 				continue
 			}
 			n++
